@@ -177,6 +177,44 @@ impl InferShapes for Cast {
     }
 }
 
+/// Cast a tensor to the ONNX `bool` type.
+///
+/// Bools are represented as `i32` values in RTen, so unlike [`Cast`] to
+/// `Int32` this maps every non-zero (or NaN) element to 1, as ONNX specifies
+/// for conversions to bool.
+#[derive(Debug)]
+pub struct CastToBool {}
+
+impl Operator for CastToBool {
+    fn name(&self) -> &str {
+        "CastToBool"
+    }
+
+    fn max_inputs(&self) -> Option<usize> {
+        Some(1)
+    }
+
+    fn run(&self, ctx: &OpRunContext) -> Result<OutputList, OpError> {
+        let pool = ctx.pool();
+        let output: Tensor<i32> = match ctx.inputs().require(0)? {
+            ValueView::Int32Tensor(t) => t.map_in(pool, |x| i32::from(*x != 0)),
+            ValueView::FloatTensor(t) => t.map_in(pool, |x| i32::from(*x != 0.)),
+            ValueView::Int8Tensor(t) => t.map_in(pool, |x| i32::from(*x != 0)),
+            ValueView::UInt8Tensor(t) => t.map_in(pool, |x| i32::from(*x != 0)),
+            ValueView::Sequence(_) => return Err(OpError::UnsupportedType),
+        };
+        output.into_op_result()
+    }
+
+    fn as_infer_shapes(&self) -> Option<&dyn InferShapes> {
+        Some(&UnaryOp)
+    }
+
+    fn output_types(&self, _ctx: &OutputTypesContext) -> Option<OutputTypeList> {
+        Some([OutputType::Fixed(ValueType::Tensor(DataType::Int32))].into())
+    }
+}
+
 #[derive(Debug)]
 pub struct CastLike {}
 
